@@ -328,7 +328,7 @@ fn replay(case: &Value, st: &mut Stats, seed: u64) {
     let mut s = match base_state(base) {
         Ok(s) => s,
         Err(e) => {
-            eprintln!("base unusable: {e}");
+            crate::diag!("base unusable: {e}");
             return;
         }
     };
@@ -412,7 +412,7 @@ pub fn run(args: &Args) -> i32 {
         n.retain(|x| seen.insert((x.0, fnv(&x.2.bytes))));
         ctx.stats.states += n.len() as u64;
         ctx.stats.max_depth = r as u64 + 1;
-        eprintln!("  [C13] round {} done at {:.1}s ({} successor states)", r + 1, ctx.elapsed(), n.len());
+        crate::diag!("  [C13] round {} done at {:.1}s ({} successor states)", r + 1, ctx.elapsed(), n.len());
         states = n;
     }
     ctx.stats.traces = ctx.stats.transitions;
